@@ -16,6 +16,122 @@ impl Prop for C17 {
             Tier::Thorough => 20000,
         }
     }
+    fn fixed_cases(&self, _tier: Tier) -> Vec<Case> {
+        let mut v = Vec::new();
+        let add = |v: &mut Vec<Case>, name: &str, ref_time: u64, recs: Vec<Rec>| {
+            let h = History { ref_time, recs, ..Default::default() };
+            v.push(Case { name: name.to_string(), ops: h.to_ops() });
+        };
+        let comm = |pid: u32, tid: u32, name: &str, t: u64| Rec::Comm { pid, tid, name: name.to_string(), exec: false, t };
+        let exec = |pid: u32, name: &str, t: u64| Rec::Comm { pid, tid: pid, name: name.to_string(), exec: true, t };
+        let fork = |pid: u32, tid: u32, ppid: u32, ptid: u32, t: u64| Rec::Fork { pid, tid, ppid, ptid, t };
+        let exit = |pid: u32, tid: u32, t: u64| Rec::Exit { pid, tid, t };
+        let sample = |pid: u32, tid: u32, t: u64| Rec::Sample { pid, tid, t, kernel: false, period: 1_000_000, ip: 0x1010, chain: vec![] };
+        // the kernel's order for exit_group with a zombie leader: the main thread's EXIT precedes the siblings'.
+        // Judged as long as no sibling EXIT is delivered afterwards …
+        add(
+            &mut v,
+            "main-exit-before-sibling-no-late-exit",
+            1000,
+            vec![comm(100, 100, "app", 1000), fork(100, 101, 100, 100, 1100), fork(100, 102, 100, 101, 1150), sample(100, 101, 1200), sample(100, 102, 1300), exit(100, 100, 2000), sample(200, 200, 2100)],
+        );
+        // … and (candidate finding C17-phantom-process-on-thread-exit) with the sibling EXITs after it
+        if finding_enabled(FINDING_PHANTOM) {
+            add(
+                &mut v,
+                "orphan-exit-minimal",
+                1000,
+                vec![comm(100, 100, "app", 1000), fork(100, 101, 100, 100, 1100), sample(100, 101, 1200), exit(100, 100, 2000), exit(100, 101, 2000)],
+            );
+            add(
+                &mut v,
+                "orphan-exit-two-siblings",
+                1000,
+                vec![comm(100, 100, "app", 1000), fork(100, 101, 100, 100, 1100), fork(100, 102, 100, 100, 1150), sample(100, 101, 1200), sample(100, 102, 1300), exit(100, 100, 2000), exit(100, 102, 2001), exit(100, 101, 2002), sample(200, 200, 2100)],
+            );
+            add(&mut v, "orphan-exit-never-seen-pid", 0, vec![comm(100, 100, "app", 1000), sample(100, 100, 1200), exit(300, 301, 1500), sample(100, 100, 1600)]);
+        }
+        // ids reused after their EXIT without a FORK: the next record of the id opens a fresh on-demand entry
+        add(
+            &mut v,
+            "id-reuse-without-fork",
+            1000,
+            vec![
+                comm(100, 100, "first", 1000),
+                fork(100, 101, 100, 100, 1100),
+                comm(100, 101, "worker", 1150),
+                sample(100, 101, 1200),
+                exit(100, 101, 1300),
+                sample(100, 101, 1400),
+                comm(100, 101, "again", 1500),
+                exit(100, 101, 1600),
+                comm(100, 101, "third", 1700),
+                exit(100, 100, 2000),
+                sample(100, 100, 2100),
+                comm(100, 100, "reborn", 2200),
+                sample(100, 101, 2300),
+                exit(100, 100, 2400),
+                comm(100, 100, "late", 2500),
+                exec(100, "execd", 2600),
+                sample(100, 100, 2700),
+            ],
+        );
+        // perf's synthesized records for tasks that already run: COMM / FORK / MMAP2 stamped 0 at the head
+        let mmap = |pid: u32, tid: u32, t: u64| Rec::Mmap2 { pid, tid, addr: 0x400000, len: 0x2000, pgoff: 0, exec: true, path: "/nonexistent-verif/bin/app".to_string(), t };
+        add(
+            &mut v,
+            "synthesized-head",
+            5000,
+            vec![comm(100, 100, "app", 0), mmap(100, 100, 0), fork(100, 101, 100, 100, 0), comm(100, 101, "worker", 0), comm(200, 200, "other", 0), sample(100, 100, 5000), sample(100, 101, 6000), comm(100, 101, "renamed", 7000), sample(200, 200, 8000), exit(100, 101, 9000)],
+        );
+        add(&mut v, "synthesized-head-exec", 0, vec![exec(100, "app", 0), fork(100, 101, 100, 100, 0), sample(100, 101, 6000), exec(100, "again", 7000), sample(100, 100, 8000)]);
+        // a COMM / EXEC stamped 0 delivered after samples (a file that breaks the round contract): the time is
+        // that of the last sample delivered before it
+        for (k, late) in [comm(100, 100, "late", 0), exec(100, "late-exec", 0), comm(100, 101, "late-thread", 0)].into_iter().enumerate() {
+            let h = history_from_file_rounds(
+                1000,
+                vec![
+                    vec![comm(100, 100, "app", 1000), fork(100, 101, 100, 100, 1100), sample(100, 100, 1500)],
+                    vec![sample(100, 101, 2500)],
+                    vec![late, sample(100, 100, 3000)],
+                    vec![sample(100, 101, 3500), exit(100, 101, 4000)],
+                ],
+            );
+            v.push(Case { name: format!("comm-time0-after-sample-{k}"), ops: h.to_ops() });
+        }
+        // names: non-ASCII, 15 / 16 bytes, empty - as process name, thread name, exec name, inherited by fork
+        let names = ["caf\u{e9}", "\u{65e5}\u{672c}\u{8a9e}\u{30b9}\u{30ec}\u{30c3}\u{30c9}", "fifteen-bytes-x", "sixteen-bytes-xy", "", "seventeen-bytes-xy"];
+        let mut recs = Vec::new();
+        let mut t = 1000;
+        for (k, n) in names.iter().enumerate() {
+            let pid = 100 + 10 * k as u32;
+            recs.push(comm(pid, pid, n, t));
+            recs.push(fork(pid, pid + 1, pid, pid, t + 1));
+            recs.push(sample(pid, pid + 1, t + 2));
+            recs.push(comm(pid, pid + 1, names[(k + 1) % names.len()], t + 3));
+            recs.push(fork(pid + 5, pid + 5, pid, pid + 1, t + 4));
+            recs.push(exec(pid, names[(k + 2) % names.len()], t + 5));
+            recs.push(sample(pid, pid, t + 6));
+            t += 10;
+        }
+        add(&mut v, "names", 1000, recs);
+        // sample times before the reference time (SAMPLE_TIME later than the first sample)
+        add(
+            &mut v,
+            "samples-before-ref",
+            5000,
+            vec![comm(100, 100, "app", 1000), sample(100, 100, 2000), fork(100, 101, 100, 100, 2500), sample(100, 101, 3000), mmap(100, 101, 3500), exit(100, 101, 4000), sample(100, 100, 5000), exec(100, "x", 5500), sample(100, 100, 6000)],
+        );
+        // a process re-created on demand by a sample after a main-thread EXIT while a sibling was alive: the
+        // sibling's later records belong to the new incarnation
+        add(
+            &mut v,
+            "main-exit-then-sibling-records",
+            1000,
+            vec![comm(100, 100, "app", 1000), fork(100, 101, 100, 100, 1100), comm(100, 101, "w", 1150), exit(100, 100, 2000), sample(100, 101, 2100), comm(100, 101, "w2", 2200), exit(100, 101, 2300), exit(100, 100, 2400)],
+        );
+        v
+    }
     fn generate(&self, rng: &mut Rng, tier: Tier, _index: u64) -> Vec<String> {
         let shape = Shape {
             max_len: if tier == Tier::Thorough { 300 } else { 120 },
@@ -28,13 +144,47 @@ impl Prop for C17 {
             files: Vec::new(),
             jit: false,
         };
-        gen_history(rng, &shape).to_ops()
+        let mut h = gen_history(rng, &shape);
+        // a sixth of the histories: out-of-order delivery (a file in which records of round N+2 are older than
+        // records of round N, back-dated records, COMM / FORK / MMAP2 stamped 0 in the middle)
+        if rng.chance(1, 6) {
+            out_of_order(&mut h, rng, OooKinds { samples: true, mmap2: true, lifecycle: true, zero: true });
+        }
+        h.to_ops()
     }
     fn execute(&self, ops: &[String], stats: &mut Stats) -> Vec<String> {
         let Some(h) = History::from_ops(ops) else {
             return vec!["bad-op".to_string()];
         };
         count_history(&h, stats);
+        // judged share per history length (the Lean judge decides; this mirrors `Life.grammarOk`)
+        let n = h.recs.len();
+        let bucket = match n {
+            0..=19 => "000_019",
+            20..=39 => "020_039",
+            40..=59 => "040_059",
+            60..=79 => "060_079",
+            80..=99 => "080_099",
+            _ => "100_up",
+        };
+        if !h.layout.is_empty() {
+            stats.bump("explicit_layout");
+            if h.recs.windows(2).any(|w| w[0].time() > w[1].time()) {
+                stats.bump("delivery_not_time_ordered");
+            }
+        }
+        if h.recs.iter().any(|r| matches!(r, Rec::Comm { t: 0, .. } | Rec::Fork { t: 0, .. } | Rec::Mmap2 { t: 0, .. })) {
+            stats.bump("has_time0_record");
+        }
+        stats.bump(&format!("len_{bucket}_cases"));
+        if c17_judged(&h) {
+            stats.bump(&format!("len_{bucket}_judged"));
+            stats.bump("judged_by_grammar");
+        } else if h.reuse {
+            stats.bump("not_judged_reuse");
+        } else {
+            stats.bump("not_judged_grammar");
+        }
         let dir = work_tmp("C17");
         let tag = format!("c{:016x}", fnv1a(ops));
         import_and_render(&h, Proj::C17, &dir, &tag, stats)
